@@ -716,7 +716,7 @@ func cmpTokens(s *explore.State, what, kind string, got []*pnfttypes.Pnft, want 
 func C06(t Tier) int {
 	run := report.NewRun("C06", t.Name, "model_checking", "E1+E2")
 	sys := pnftSystem(pnftVariant{ID: "C06", Auth: true, StrictDelete: true, Ctl: []string{"NB", "XI"}})
-	dl := deadline(t, 150*time.Second, 15*time.Minute)
+	dl := deadline(t, 120*time.Second, 15*time.Minute)
 	bounds := []explore.Bounds{{Depth: 4, V: 1, Deadline: dl}, {Depth: 5, V: 1, Deadline: dl}}
 	if t.Thorough {
 		bounds = []explore.Bounds{{Depth: 5, V: 1, Deadline: dl}, {Depth: 5, V: 2, Deadline: dl}, {Depth: 6, V: 2, Deadline: dl}, {Depth: 7, V: 2, Deadline: dl}}
@@ -742,7 +742,7 @@ func C06(t Tier) int {
 func C12(t Tier) int {
 	run := report.NewRun("C12", t.Name, "model_checking", "E1+E2")
 	sys := pnftSystem(pnftVariant{ID: "C12", Wide: true, Queries: true, StrictDelete: true, Ctl: []string{"NB", "XI"}})
-	dl := deadline(t, 150*time.Second, 15*time.Minute)
+	dl := deadline(t, 120*time.Second, 15*time.Minute)
 	bounds := []explore.Bounds{{Depth: 4, V: 1, Deadline: dl}, {Depth: 5, V: 1, Deadline: dl}}
 	if t.Thorough {
 		bounds = []explore.Bounds{{Depth: 5, V: 1, Deadline: dl}, {Depth: 5, V: 2, Deadline: dl}, {Depth: 6, V: 2, Deadline: dl}, {Depth: 7, V: 2, Deadline: dl}}
